@@ -48,6 +48,7 @@ def run(res):
                 jobs.append(("wshs_drv", [], env, dict(mode="server", table=tab["req"], shard=sh, nshards=ns)))
         jobs.append(("wshs_drv", [], env, dict(mode="client", table=tab["resp"], shard=0, nshards=1)))
         jobs.append(("wshs_drv", [], env, dict(mode="creq")))
+        jobs.append(("wshs_drv", [], env, dict(mode="limit", reps=40 if thorough else 12, shard=11)))
         jobs.append(("wshs_drv", [], env, dict(mode="pair", shard=7)))
         for k in range(4 if thorough else 1):
             jobs.append(("wshs_drv", [], env, dict(mode="fuzz", n=3000 if thorough else 800, shard=20 + k)))
